@@ -154,12 +154,12 @@ def xorRest (m : Nat) (s1 : Cipher) (src1 : Bytes) : Except Panic (Cipher × Byt
   let full := src1.length - src1.length % (64 * m)
   (if full > 0 then blocks s2 (src1.take full) else .ok (s2, [])) >>= fun (s3, out2) =>
   let src2 := src1.drop full
-  if s3.counter.toNat + m > 2 ^ 32 then
-    -- one block at a time into the tail of a zeroed buffer
+  if s3.counter.toNat + m ≥ 2 ^ 32 then
+    -- one block at a time into the tail of a zeroed buffer (the multi-block refill would reach 2^32)
     let nb := (src2.length + 63) / 64
-    let b := src2 ++ zeros (nb * 64 - src2.length)
+    let b := src2 ++ zeros (64 * nb - src2.length)
     blocksGeneric s3 b >>= fun (s4, bx) =>
-    .ok ({ s4 with buf := zeros (64 * m - nb * 64) ++ bx, len := nb * 64 - src2.length },
+    .ok ({ s4 with buf := zeros (64 * m - 64 * nb) ++ bx, len := 64 * nb - src2.length },
          out2 ++ bx.take src2.length)
   else if src2.length > 0 then
     let b := src2 ++ zeros (64 * m - src2.length)
